@@ -38,6 +38,10 @@ CLAIMED = {
             "Theorems (Properties_C18.v): for EVERY sequence of patterns and files (valid, unreadable, syntax error, DSL error, empty, unresolvable import) and every failOn/legacy/enable/disable value: an unknown failOn value is always an error; with rules given, initialisation fails iff some pattern matches nothing or some file fails with a listed class; otherwise exactly the enabled groups of the valid files are active (independent of where the skipped files sit) and the skipped files are exactly the faulty ones; nothing loaded => no-op; the group filter equals the documented sentence and experimental groups run only on request; the two pre-fix deviations are refuted. Tie: random fault sequences materialised on disk (dangling symlinks, globs with 0/1/many matches, malformed globs) and loaded through linter.NewChecker; error class, firing groups on a trigger file and skip-log lines compared in Coq with the model. Oracle: the property's sentences evaluated directly on the same runs.",
             "Trusted: Coq kernel + vm_compute; ruleguard's classification of load errors is observed (a DSL/import error inside a group rejected by the filter does not occur; modelled as such after the tie showed it); Glob ordering; ASCII TrimSpace.",
             "§5 C18"),
+    "C08": ("Coq theorems over the start-up event order, diagnostic rendering and package-unit selection vs driver de-duplication + four-binary differential correspondence",
+            "Theorems (Properties_C08.v): with the start-up order the code has today the analyzer's registry snapshot equals the CLI's registry for every pair of hand-written/embedded registries (pre-fix order refuted: it offers only the hand-written checkers); a diagnostic renders to the same 'location: checker: message' line through asDiag and through the CLI; quick fixes are forwarded field by field; for every well-formed package unit the CLI analyses each file exactly once and the analysis driver (all variants + de-duplication) covers exactly the same files once each. Tie/oracle: a workspace with in-package tests, an external test package, nested and multiple packages analysed by go-critic, gocritic, go-critic-analysis and gocritic-analysis under equivalent configurations in both flag dialects (defaults, enable-all, hand-written names, embedded names, tags, a parameter) and different package argument sets: normalised (file,line,col,checker,message) lists equal and duplicate-free, rendered lines compared with the model in Coq; analyzer -flags covers every parameter; analyzer -json suggested edits equal in-process Warning.Suggestion.",
+            "Trusted: Coq kernel + vm_compute; the event-order model is a hand abstraction of Go's package initialisation (tied behaviourally by the differential run); x/tools driver de-duplication assumed as documented; partial: equality of diagnostics across package variants is measured, not proved.",
+            "§5 C08"),
 }
 
 NOT_APPLICABLE = {}
